@@ -639,6 +639,7 @@ type Axiom struct {
 // Contracts is the set of all parsed contract items.
 type Contracts struct {
 	Funcs   map[string]*FuncContract
+	Body    map[string]*FuncContract // verified body contracts of functions whose caller-side contract is assumed
 	Specs   map[string]*SpecFunc
 	Axioms  []*Axiom
 	Consts  map[string]string
@@ -648,7 +649,7 @@ type Contracts struct {
 }
 
 func NewContracts() *Contracts {
-	return &Contracts{Funcs: map[string]*FuncContract{}, Specs: map[string]*SpecFunc{}, Consts: map[string]string{}}
+	return &Contracts{Funcs: map[string]*FuncContract{}, Body: map[string]*FuncContract{}, Specs: map[string]*SpecFunc{}, Consts: map[string]string{}}
 }
 
 var clauseKeywords = map[string]bool{
@@ -777,8 +778,20 @@ func (c *Contracts) ParseContractFile(path string, pkgShort string) error {
 					return fmt.Errorf("%s:%d: %v", filepath.Base(path), l.no, err)
 				}
 			}
-			if _, dup := c.Funcs[fc.Key]; dup {
-				return fmt.Errorf("%s: duplicate contract for %s", pos, fc.Key)
+			if prev, dup := c.Funcs[fc.Key]; dup {
+				// an assumed contract (what callers rely on) plus a verified "body" contract (what is
+				// proved of the code today) may coexist for one function
+				switch {
+				case prev.Trusted && !fc.Trusted && c.Body[fc.Key] == nil:
+					c.Body[fc.Key] = fc
+					c.Order = append(c.Order, fc.Key)
+				case !prev.Trusted && fc.Trusted && c.Body[fc.Key] == nil:
+					c.Body[fc.Key] = prev
+					c.Funcs[fc.Key] = fc
+				default:
+					return fmt.Errorf("%s: duplicate contract for %s", pos, fc.Key)
+				}
+				break
 			}
 			c.Funcs[fc.Key] = fc
 			c.Order = append(c.Order, fc.Key)
